@@ -148,3 +148,92 @@ def uns(ctx):
         out.append(Obl('UNS', im['self_q'], im['span'], 'unsafe impl %s for %s requires Send + Sync of every parameter' % (tr.split('::')[-1], im['self_q'].split('::')[-1]),
                        not missing, 'missing bounds: ' + ', '.join(missing) if missing else 'all of %s bounded by Send + Sync' % ','.join(params)))
     return out
+
+
+# ---------------------------------------------------------------------------------------------------------------------
+# UNS-struct: an `unsafe impl Send|Sync for T` must not assert more than the compiler would derive from T's fields when
+# every type parameter is Send + Sync (which the impl's bounds require, see UNS).  The derivation is the auto-trait rule
+# applied structurally, with the documented impls of the std containers / cells / locks, coinductively for recursive types.
+_STRUCTURAL = re.compile(r'^(std::vec::Vec|std::collections::\w+(::\w+)*|std::option::Option|std::result::Result|std::boxed::Box|std::cmp::Reverse|std::marker::PhantomData|'
+                         r'std::string::String|ahash::\w+(::\w+)*|std::hash::\w+|std::ops::Range\w*|std::num::\w+|std::mem::ManuallyDrop|std::pin::Pin)$')
+
+
+def _auto(F, ty, trait, assume, why, depth=0):
+    """does type id `ty` implement `trait` ('Send'|'Sync') given all type parameters are Send + Sync?  `assume`: local ADTs in progress"""
+    t = F.types[ty]
+    k = t['k']
+    if depth > 40:
+        return True
+    if k in ('prim', 'param'):
+        return True
+    if k == 'ref':
+        inner = t['a'][0]
+        if t.get('m'):
+            return _auto(F, inner, trait, assume, why, depth + 1)
+        return _auto(F, inner, 'Sync', assume, why, depth + 1)
+    if k in ('tuple', 'slice', 'array'):
+        return all(_auto(F, a, trait, assume, why, depth + 1) for a in t['a'])
+    if k == 'adt':
+        p = t['p']
+        args = t.get('a', [])
+
+        def all_args(tr):
+            return all(_auto(F, a, tr, assume, why, depth + 1) for a in args)
+        if p in ('std::sync::Arc', 'std::sync::Weak'):
+            return all_args('Send') and all_args('Sync')
+        if p in ('std::rc::Rc', 'std::rc::Weak'):
+            why.append('%s is never %s' % (t['s'][:60], trait))
+            return False
+        if p == 'std::sync::RwLock':
+            return all_args('Send') and (trait == 'Send' or all_args('Sync'))
+        if p == 'std::sync::Mutex':
+            return all_args('Send')
+        if p in ('std::cell::RefCell', 'std::cell::Cell', 'std::cell::UnsafeCell', 'std::cell::OnceCell'):
+            if trait == 'Sync':
+                why.append('%s is never Sync' % t['s'][:70])
+                return False
+            return all_args('Send')
+        if p.startswith('std::sync::atomic::') or p in ('std::sync::Once', 'std::sync::Condvar', 'std::sync::Barrier', 'std::alloc::Global', 'std::hash::RandomState', 'ahash::RandomState'):
+            return True
+        if p in ('std::sync::MutexGuard', 'std::sync::RwLockReadGuard', 'std::sync::RwLockWriteGuard'):
+            if trait == 'Send':
+                why.append('%s is never Send' % t['s'][:60])
+                return False
+            return all_args('Sync')
+        if p in ('std::cell::Ref', 'std::cell::RefMut', 'std::ptr::NonNull'):
+            why.append('%s is never %s' % (t['s'][:60], trait))
+            return False
+        if t.get('local') and p in F.adts:
+            if (p, trait) in assume:
+                return True
+            assume = assume | {(p, trait)}
+            return all(_auto(F, f['ty'], trait, assume, why, depth + 1) for v in F.adts[p]['variants'] for f in v['fields'])
+        if _STRUCTURAL.match(p):
+            return all_args(trait)
+        why.append('cannot derive %s for %s (type not in the table)' % (trait, t['s'][:70]))
+        return False
+    if k == 'dyn':
+        ok = ('std::marker::' + trait) in t['s']
+        if not ok:
+            why.append('%s has no %s bound' % (t['s'][:60], trait))
+        return ok
+    why.append('cannot derive %s for %s' % (trait, t.get('s', '?')[:70]))
+    return False
+
+
+def uns_struct(ctx):
+    F = ctx.F
+    out = []
+    for im in F.impls:
+        if not im.get('unsafe') or im['trait'] not in ('std::marker::Send', 'std::marker::Sync'):
+            continue
+        tr = im['trait'].split('::')[-1]
+        adt = F.adts.get(im['self_q'])
+        if adt is None:
+            out.append(Obl('UNS-struct', im['self_q'], im['span'], 'unsafe impl %s: fields derivable' % tr, False, 'self type is not a crate ADT'))
+            continue
+        why = []
+        ok = all(_auto(F, f['ty'], tr, frozenset({(im['self_q'], tr)}), why) for v in adt['variants'] for f in v['fields'])
+        out.append(Obl('UNS-struct', im['self_q'], im['span'], 'unsafe impl %s for %s asserts no more than its fields give when K, N, E: Send + Sync' % (tr, im['self_q'].split('::')[-1]),
+                       ok, '; '.join(sorted(set(why))) if why else 'derivable from the field types (Arc / Weak / RwLock / Vec of parameters)'))
+    return out
